@@ -83,6 +83,35 @@ Inductive stmt :=
 
 Record cbody := mkBody { cb_recv : string; cb_meth : string; cb_nargs : nat; cb_ntmp : nat; cb_body : list stmt }.
 
+(* ------------------------------------------------------------- loops over vectors / matrices *)
+(* SmoothMax LogSmoothMax Vmean VdotV Vnorm Mtrace Mnorm: a prologue, ONE loop whose body is a straight line of
+   method calls on the receiver / temporaries / the local with the current element(s) as operands, an epilogue.
+   Inside [lp_pre] [lp_first] [lp_body] [lp_post] the operand [SArg i] means
+     i < lp_nvec                 : <i-th vector / matrix parameter>.ConstAt(<loop index>) resp. it.GetConst()
+     lp_nvec <= i < +lp_ncst     : the (i - lp_nvec)-th ConstFloat64 parameter (alpha)
+     i = lp_nvec + lp_ncst       : float64(<first vector parameter>.Dim()) as a constant operand *)
+Record lbody := mkLoop {
+  lp_recv : string; lp_meth : string;
+  lp_nvec : nat; lp_ncst : nat; lp_ntmp : nat;
+  lp_iter : string;            (* "index": for i := 0; i < x.Dim(); i++ .. x.ConstAt(i) (all vector parameters at the same i)
+                                  "iterator": for it := a.ConstIterator(); it.Ok(); it.Next() .. it.GetConst()
+                                  "diag": n, m := a.Dims(); for i := 0; i < n; i++ .. a.ConstAt(i, i)
+                                  "rowmajor": for i := 0; i < n; i++ { for j := 0; j < m; j++ .. a.ConstAt(i, j) *)
+  lp_guards : list string;     (* tests before the first write: "dim-mismatch-panics" "not-square-panics"
+                                  "n-zero-returns-nil" "empty-returns-nil" *)
+  lp_local : string;           (* "" | "NullReal" (t := NullReal64() in a Real64 method, NullReal32() in a Real32 method)
+                                  | "NewScalar" (t := NewScalar(r.Type(), 0.0)) *)
+  lp_pre : list stmt;
+  lp_split : bool;             (* the loop body is  if i == 0 && j == 0 { lp_first } else { lp_body } *)
+  lp_first : list stmt;
+  lp_body : list stmt;
+  lp_post : list stmt }.
+
+(* ------------------------------------------------------------- predicates *)
+(* Greater / Smaller (bool) and Sign (int) with the RECEIVER as operand 0 and the parameter as operand 1 *)
+Inductive pbody := PBool (c : bcond) | PInt (arms : list (bcond * Z)) (dflt : Z).
+Record pred := mkPred { pd_recv : string; pd_meth : string; pd_body : pbody }.
+
 (* what the translator could not put into the language *)
 Record untied := mkUntied { un_recv : string; un_meth : string; un_why : string }.
 
@@ -266,6 +295,86 @@ Fixpoint sexec (fuel : nat) (b : senv) (p : list stmt) (s : St (A := A)) : res (
       end
     end
   end.
+
+(* ------------------------------------------------- loops on the register file *)
+(* the calls that only occur in the loop methods, on top of [call_step] *)
+Definition call_step2 (meth : string) (c : nat) (args : list (opd A)) : option (St (A := A) -> res St) :=
+  match call_step meth c args with
+  | Some f => Some f
+  | None =>
+      let a0 := nth 0 args (Im (fofZ F 0)) in let a1 := nth 1 args (Im (fofZ F 0)) in
+      let a2 := nth 2 args (Im (fofZ F 0)) in
+      let is m := String.eqb meth m in
+      if is "SetFloat64" then match a0 with Im v => Some (do_setf F r32 c v) | Rg _ => None end
+      else if is "Sqrt" then Some (do_sqrt F r32 c a0)
+      else if is "LogAdd" then match a2 with Rg t => Some (do_logadd F r32 c a0 a1 t) | Im _ => None end
+      else None
+  end.
+
+(* straight-line statement lists *)
+Fixpoint lexec (b : senv) (p : list stmt) (s : St (A := A)) : res (St (A := A)) :=
+  match p with
+  | [] => Ok s
+  | SCall r meth args :: rest =>
+      match sreg_of b r with
+      | Some c => match call_step2 meth c (map (sopd_of b s) args) with
+                  | Some f => bind (f s) (lexec b rest)
+                  | None => Panic EIndex
+                  end
+      | None => Panic EIndex
+      end
+  | _ => Panic EIndex
+  end.
+
+Definition largs (elems : list (opd A)) (csts : list A) (len : nat) : list (opd A) :=
+  elems ++ map (fun v => Im v) csts ++ [Im (fofZ F (Z.of_nat len))].
+
+(* c.<meth>(vectors.., csts.., tmps): [items] are the element tuples in iteration order (one operand per vector
+   parameter), [loc] the register id of the fresh local (installed first, as in Model.do_vdotv) *)
+Definition run_loop (lb : lbody) (c : nat) (items : list (list (opd A))) (csts : list A) (tmps : list nat) (loc : nat)
+           (s : St (A := A)) : res (St (A := A)) :=
+  let n := List.length items in
+  let b := fun el => mkSenv c (largs el csts n) tmps loc in
+  let none := repeat (Im (fofZ F 0)) (lp_nvec lb) in
+  let s0 := if String.eqb (lp_local lb) "" then s else upd s loc (null_reg F (rk (s c))) in
+  bind (lexec (b none) (lp_pre lb) s0) (fun s1 =>
+  bind (match items with
+        | [] => Ok s1
+        | it0 :: rest =>
+            if lp_split lb then
+              bind (lexec (b it0) (lp_first lb) s1)
+                   (fun s2 => fold_left (fun m it => bind m (lexec (b it) (lp_body lb))) rest (Ok s2))
+            else fold_left (fun m it => bind m (lexec (b it) (lp_body lb))) items (Ok s1)
+        end) (fun s3 =>
+  lexec (b none) (lp_post lb) s3)).
+
+(* ------------------------------------------------- predicates on values *)
+Definition penv (x y : A) : env := mkEnv (fun i => match i with O => x | _ => y end) (fofZ F 0) 0 0%Z.
+Definition pcev (c : bcond) (x y : A) : option bool :=
+  let v := penv x y in
+  match c with
+  | BLt a b => Some (fltb F (eval a v) (eval b v))
+  | BLe a b => Some (fleb F (eval a v) (eval b v))
+  | BGt a b => Some (fltb F (eval b v) (eval a v))
+  | BGe a b => Some (fleb F (eval b v) (eval a v))
+  | BIsInf a z => Some (fisinf F (eval a v) z)
+  | BGreater _ _ => None
+  end.
+(* x.<bool predicate>(y) *)
+Definition pred_bool (p : pbody) (x y : A) : option bool :=
+  match p with PBool c => pcev c x y | PInt _ _ => None end.
+(* x.<int predicate>(): the first arm whose test holds *)
+Fixpoint parms (arms : list (bcond * Z)) (d : Z) (x : A) : option Z :=
+  match arms with
+  | [] => Some d
+  | (c, z) :: rest => match pcev c x x with
+                      | Some true => Some z
+                      | Some false => parms rest d x
+                      | None => None
+                      end
+  end.
+Definition pred_int (p : pbody) (x : A) : option Z :=
+  match p with PInt arms d => parms arms d x | PBool _ => None end.
 
 Definition sexec_st (b : senv) (p : list stmt) (s : St (A := A)) : res (St (A := A)) :=
   match sexec 64 b p s with Ok (_, s', _) => Ok s' | Panic e => Panic e end.
